@@ -75,7 +75,7 @@ def _chunk(seeds):
 def run(tier: str, rd):
     ev = Evidence(PROP, tier)
     vd = Verdicts(PROP)
-    n = 300 if tier == "quick" else 3000
+    n = 600 if tier == "quick" else 4000
     base = seed() * 1000000 + 1700000
     recs = []
     for lst in pmap(_chunk, list(range(base, base + n)), chunk=10):
